@@ -58,11 +58,24 @@ nb = len(glob.glob(H + '/witness/benign/*.diff'))
 silent = sum(1 for w, r in res.items() if w.startswith('benign/') and all('silent' in v for v in r.values()))
 out.append(f'\nBehaviour-preserving refactorings written by sub-agents: {nb} (`witness/benign/*.diff`, each with its argument in the `.txt` beside it); {silent} replayed under their own property in the last thorough run, all silent.\n')
 text = '\n'.join(out)
+# rules per property, as run (from the evidence of the last thorough run)
+rt = ['| property | level | obligations (thorough) | rules run (rule: obligations) |', '|---|---|---|---|']
+for f in sorted(glob.glob(H + '/evidence/C*.json')):
+    e = json.load(open(f))
+    cov = e.get('coverage', {})
+    by = cov.get('obligations_by_rule', {}) or {}
+    cells = ', '.join(f'{k}: {v}' for k, v in sorted(by.items()) if not k.startswith('witness'))
+    wit = sum(v for k, v in by.items() if k.startswith('witness'))
+    rt.append(f'| {e["property_id"]} | {e.get("level")} | {cov.get("obligations")} (of which {wit} witness replays) | {cells} |')
+rules_text = '\n'.join(rt)
 p = H + '/DESIGN.md'
 s = open(p).read()
 b, e = '<!-- CATCH-TABLE:BEGIN -->', '<!-- CATCH-TABLE:END -->'
 if b in s:
     s = s[:s.index(b) + len(b)] + '\n' + text + '\n' + s[s.index(e):]
+    rb, re_ = '<!-- RULES-TABLE:BEGIN -->', '<!-- RULES-TABLE:END -->'
+    if rb in s:
+        s = s[:s.index(rb) + len(rb)] + '\n' + rules_text + '\n' + s[s.index(re_):]
     open(p, 'w').write(s)
     print('DESIGN.md updated:', caught, 'caught', missed, 'missed', len(muts), 'variants')
 else:
